@@ -25,7 +25,7 @@ ASSUMPTIONS = [
     'named as a dependency depends on "everything", which the statement does not cover)',
     'invocation order between different methods is not asserted',
 ]
-REQUIRED = {'unresolvable_on_subclass_cases': 10, 'inherited_methods_decorated_again': 30, 'ops': 2500, 'invocations': 2000, 'overrides': 200, 'method_on_method': 200, 'function_form_ops': 280, 'methods_without_dependencies': 60, 'plain_mixin_first': 30, 'objects_mutations': 200}
+REQUIRED = {'queued_assignment_ops': 30, 'unresolvable_on_subclass_cases': 10, 'inherited_methods_decorated_again': 30, 'ops': 2500, 'invocations': 2000, 'overrides': 200, 'method_on_method': 200, 'function_form_ops': 280, 'methods_without_dependencies': 60, 'plain_mixin_first': 30, 'objects_mutations': 200}
 
 _st = {}
 PNAMES = ['p0', 'p1', 'p2', 'p3']
@@ -112,7 +112,90 @@ def unresolvable_on_subclass_case(idx, rng, P, rep):
     rep.case(('unresolvable', variant), True)
 
 
+def queued_assignment_case(idx, rng, P, rep):
+    """A queued callback reacts to a change by assigning another parameter a watched method depends on: the method runs
+    for that change as well (once), whatever route the first change came by - assignment, update(), a batch, a temporary
+    update - and what it saw last is the state the object is left in."""
+    param = _st['param']
+    batch = param.parameterized.batch_call_watchers
+    as_method = rng.random() < 0.5
+    seen = {'m': [], 'mb': [], 'mc': []}
+
+    class Q(param.Parameterized):
+        a = param.Number(default=1.0)
+        b = param.Number(default=2.0)
+        c = param.Number(default=3.0)
+
+        @param.depends('a', 'b', 'c', watch=True)
+        def m(self):
+            seen['m'].append((self.a, self.b, self.c))
+
+        @param.depends('b', watch=True)
+        def mb(self):
+            seen['mb'].append(self.b)
+
+        @param.depends('c', watch=True)
+        def mc(self):
+            seen['mc'].append(self.c)
+
+        if as_method:
+            @param.depends('a', watch='queued')
+            def follow(self):
+                self.b = self.a * 10
+    o = Q()
+    if not as_method:
+        o.param.watch(lambda *evs: setattr(o, 'b', o.a * 10), ['a'], queued=True)
+    desc = dict(kind='queued-assignment', queued_callback='depends method' if as_method else 'param.watch')
+    for step in range(rng.randint(2, 5)):
+        route = rng.choice(['set', 'update', 'update-two', 'batch', 'temporary-update'])
+        v = float(idx % 50 + step * 7 + 11)
+        for k in seen:
+            del seen[k][:]
+        c_changes = False
+        if route == 'set':
+            o.a = v
+        elif route == 'update':
+            o.param.update(a=v)
+        elif route == 'update-two':
+            o.param.update(a=v, c=v + 0.5)
+            c_changes = True
+        elif route == 'batch':
+            with batch(o):
+                o.a = v
+                if rng.random() < 0.5:
+                    o.c = v + 0.5
+                    c_changes = True
+        else:
+            with o.param.update(a=v):
+                pass
+            # (entering changed a and, through the callback, b; leaving restored a and the callback set b once more)
+        rep.count('ops')
+        rep.count('queued_assignment_ops')
+        state = (o.a, o.b, o.c)
+        where = f'{route} (queued callback: {desc["queued_callback"]})'
+        if o.b != o.a * 10:
+            rep.violation('C06/queued-assignment/callback-not-run', f'{where}: b is {o.b!r}, a is {o.a!r}', case=desc)
+            break
+        if not seen['m'] or seen['m'][-1] != state:
+            rep.violation('C06/missing-call/change-made-by-queued-callback', f'{where}: m (depends on a, b, c) saw {seen["m"]}, the object is left at '
+                          f'{state}: it was not run for the change the queued callback made', case=desc)
+        want_b = 2 if route == 'temporary-update' else 1
+        if len(seen['mb']) != want_b:
+            rep.violation(f'C06/{"missing" if len(seen["mb"]) < want_b else "extra"}-call/change-made-by-queued-callback',
+                          f'{where}: mb (depends on b) ran {len(seen["mb"])}x, expected {want_b}', case=desc)
+        if len(seen['mc']) != int(c_changes):
+            rep.violation(f'C06/{"missing" if len(seen["mc"]) < int(c_changes) else "extra"}-call/beside-queued-callback',
+                          f'{where}: mc (depends on c) ran {len(seen["mc"])}x, expected {int(c_changes)}', case=desc)
+        want_m = 4 if route == 'temporary-update' else 2
+        if len(seen['m']) > want_m:
+            rep.violation('C06/extra-call/change-made-by-queued-callback', f'{where}: m ran {len(seen["m"])}x for two changes '
+                          f'({seen["m"]})', case=desc)
+    rep.case(('queued-assignment', as_method), True)
+
+
 def run_case(idx, rng, P, rep):
+    if rng.random() < 0.04:
+        return queued_assignment_case(idx, rng, P, rep)
     if rng.random() < 0.1:
         return function_form_case(idx, rng, P, rep)
     if rng.random() < 0.04:
